@@ -377,6 +377,17 @@ def gen_run(r, w, emit):
 
     for i in range(nsteps):
         history_step()
+    # placed histories: (a) a guess given before the first transcription and replaced after it; (b) a time-dependent
+    # guess for a state (matters for the helper states of DirectCollocation / integrator nodes)
+    if r.random() < 0.4:
+        tg = G.guess_targets(sp)
+        t, sd = G.pick(r, tg)
+        emit({"op": "set_initial", "x": t, "g": G.gen_guess(r, t, sd, N, cfg)})
+        emit({"op": "solve", "how": "solve"})
+        emit({"op": "set_initial", "x": t, "g": G.gen_guess(r, t, sd, N, cfg)})
+    if r.random() < 0.4:
+        x = G.pick(r, info["xs"])
+        emit({"op": "set_initial", "x": x, "g": ["expr", G.gen_time_expr(r)]})
     args, res, vals = gen_to_function(r, info)
     emit({"op": "to_function", "name": "F1", "args": args, "results": res})
     for i in range(r.randint(0, 3)):
